@@ -98,6 +98,8 @@ def cases():
         if draw(st.integers(0, 2)) == 0:
             prog["_steer"] = {"no_static_props_on_opaque": b == "nanobind", "no_fallible_indexer": b == "kotlin", "no_self_ctor": False}
             prog["special"] = S.add_special_methods(draw, prog)     # getters/setters, constructors, stringifiers, comparators, indexers, iterators
+        if draw(st.integers(0, 2)) == 0:
+            S.add_rust_links(draw, prog)      # documentation links of every kind (rendered by all backends but c)
         if b in ("kotlin", "c") and draw(st.integers(0, 3)) == 0:
             S.add_trait(draw, prog, options=(b == "c"))      # bridged traits: kotlin and c are the backends that accept them
         return b, prog
